@@ -50,6 +50,7 @@ pub fn gen_case(prop: &str, rng: &mut Rng) -> Case {
         audit_every_step: rng.chance(if prop == "C02" { 3 } else { 1 }, 4),
         counts: flavour == Flavour::Sync || prop == "C19",
         adopt_unexpected_upgrade: prop == "C19",
+        same_waker_mask: if rng.chance(1, 2) { rng.below(256) as u8 } else { 0 },
         teardown: rng.next_u64() >> 16,
     };
     // per-run weights (swarm)
